@@ -30,6 +30,9 @@ CHECKS = {
  "C06": ("exhaustive cross product of origin features on one argument (kind x default x default_value_if x default_missing x env state x one relation) x all token sequences up to a bound, against a source-lattice reference model",
          "Every applicable configuration of the argument under test (5 kinds x default x 5 conditional-default variants x default_missing x 4 environment states x 13 relations/settings incl. ignore_errors recovery and global+subcommand; ~2.2k thorough) x every sequence of <=3 (quick) / <=4 (thorough) distinct tokens. Expected origin, value and value_source come from the lattice command line > environment > conditional default > default > absent; presence clauses check that defaults never trigger or satisfy conflicts/requirements/arg_required_else_help while environment values do, and that a command-line value is never displaced by a non-command-line origin.",
          "Trusted: lattice function r3() and presence clauses in checks/src/bin/c06.rs; fixed process environment (fix_env). Not pinned (excluded): repeated Set arguments (C07), a global supplied at two levels (C09), conditional defaults of a global evaluated per level, explicit defaults on flags.", "DESIGN.md §4 C06"),
+ "C08": ("exhaustive enumeration of successful lines (configurations x argv prefix tree) x all applicable spelling rewrites and their pairwise compositions, observation-equality oracle; plus exhaustive prefix enumeration on shared-prefix trees",
+         "For every conventional configuration x every argv in A(cfg)^<=L that parses and that the documented-grammar reader accepts, every applicable rewrite of a root-level token (--o=v<->--o v, -ov<->-o v<->-o=v, cluster<->separate shorts, alias<->canonical, unique prefix<->full name, explicit -- before plain trailing positionals) and every composition of two is parsed and must give the same observation (values, grouping, sources, indices up to renumbering). Ambiguity family: every prefix of every long/alias/subcommand name of two trees with shared prefixes (incl. another argument's alias and the generated help/version): ambiguous prefixes must never be accepted, exact names win, unique prefixes resolve.",
+         "Trusted: the rewrite generator (checks/src/bin/c08.rs) and R1's reading that drives it; rewrites are only applied where documentation makes spellings equivalent (single-value options, non-flag-looking positionals).", "DESIGN.md §4 C08"),
 }
 PENDING_REASON = "check not built yet in this round (design in DESIGN.md §4); will be claimed when its checker exists"
 props = [json.loads(l) for l in open('/verif/properties.jsonl')]
